@@ -253,10 +253,13 @@ func (self *VM) SpawnAsync(
 		))
 	}
 
+	// The function receives the validated (converted) arguments, not the raw ones.
+	invocation.Args = append([]value.Value{}, invocation.Args...)
+
 	index := 0
 	for _, param := range invocation.FunctionSignature.Params {
 		arg := invocation.Args[index]
-		_, interrupt := value.DeepCast(arg, param.Type, errors.Span{}, false)
+		castedArg, interrupt := value.DeepCast(arg, param.Type, errors.Span{}, false)
 		if interrupt != nil {
 			panic(fmt.Sprintf(
 				"ARGS=%s | Argument %d for param `%s` type mismatch: `%s`",
@@ -266,6 +269,7 @@ func (self *VM) SpawnAsync(
 				(*interrupt).Message(),
 			))
 		}
+		invocation.Args[index] = *castedArg
 
 		index++
 	}
@@ -309,10 +313,13 @@ func (self *VM) SpawnSync(
 		))
 	}
 
+	// The function receives the validated (converted) arguments, not the raw ones.
+	invocation.Args = append([]value.Value{}, invocation.Args...)
+
 	index := 0
 	for _, param := range invocation.FunctionSignature.Params {
 		arg := invocation.Args[index]
-		_, interrupt := value.DeepCast(arg, param.Type, errors.Span{}, false)
+		castedArg, interrupt := value.DeepCast(arg, param.Type, errors.Span{}, false)
 		if interrupt != nil {
 			panic(fmt.Sprintf(
 				"ARGS=%s | Argument %d for param `%s` type mismatch: `%s`",
@@ -322,6 +329,7 @@ func (self *VM) SpawnSync(
 				(*interrupt).Message(),
 			))
 		}
+		invocation.Args[index] = *castedArg
 
 		index++
 	}
